@@ -25,16 +25,24 @@ def collected(vs, style):
                             test=f"t{i}", function=None, results=v) for i, v in enumerate(vs)]
 
 
+def wire_vec(cells):
+    """A number that is not one of the five codes is `junk` in the model whatever it is: fractional values go over the wire as one."""
+    return [c if c is None or isinstance(c, int) else 1000003 for c in cells]
+
+
 def mk_vector(cells, style):
-    """cells: ints or None (masked)."""
+    """cells: ints or None (masked); or, with fractional non-flag values, floats (a float64 vector)."""
     has_mask = any(c is None for c in cells)
+    if any(isinstance(c, float) for c in cells):
+        data = np.array([4.0 if c is None else float(c) for c in cells], dtype="float64")
+        return np.ma.array(data, mask=[c is None for c in cells]) if has_mask or style % 2 else data
     if not has_mask and style % 3 == 0:
         return np.array(cells, dtype="uint8" if all(0 <= c < 256 for c in cells) else "int64")
     if not has_mask and style % 3 == 1:
         return np.ma.array(cells, dtype="int64")
     if style % 3 == 0:
         # masked_all: uninitialised memory under the mask
-        v = np.ma.masked_all(len(cells), dtype="uint8")
+        v = np.ma.masked_all(len(cells), dtype="uint8" if all(c is None or 0 <= c < 256 for c in cells) else "int64")
         for i, c in enumerate(cells):
             if c is not None:
                 v[i] = c
@@ -94,11 +102,13 @@ def run(out: Outcome, drv):
     for _ in range(n):
         k = rng.randint(1, 6)
         ln = rng.choice([0, 1, 2, 5, 12, 30])
-        w = rng.choice([[1, 1, 1, 1, 2, 3, 4, 9, 0, None], [1, 2, 3, 4, 9, 7, None, None], [9, 2, None, 0]])
+        w = rng.choice([[1, 1, 1, 1, 2, 3, 4, 9, 0, None], [1, 2, 3, 4, 9, 7, None, None], [9, 2, None, 0],
+                        # non-flag values a narrowing cast would turn into flags: fractional floats, integers = a flag mod 256
+                        [1, 1, 2.5, 3.9, 4.5, 1.5, 9.25, None], [1, 2, 257, 260, 265, -252, 258, 3, None], [1, 9, 2.5, 1e3, -3.0]])
         vectors = [[rng.choice(w) for _ in range(ln)] for _ in range(k)]
         cases.append((vectors, rng.randint(0, 11), rng.choice(["compare", "compare", "aggregate", "store"])))
     obs = [observe(v, s, via) for v, s, via in cases]
-    ans = drv.run([{"kind": "agg", "vectors": v, "obs": sut.wire_obs(o)} for (v, s, via), o in zip(cases, obs)])
+    ans = drv.run([{"kind": "agg", "vectors": [wire_vec(x) for x in v], "obs": sut.wire_obs(o)} for (v, s, via), o in zip(cases, obs)])
     for (v, s, via), o, a in zip(cases, obs, ans):
         case = {"vectors": v, "style": s, "via": via}
         out.record(case, "flags" in o and len(set(o["flags"])) >= 2, [f"via:{via}", f"k:{len(v)}"])
